@@ -34,7 +34,7 @@ def digests_cmd(argv):
     import multiprocessing as mp
     from . import engine
     pid, seeds, workers = argv[0], json.loads(argv[1]), int(argv[2])
-    tasks = [(pid, s, "quick", i) for i, s in enumerate(seeds)]
+    tasks = [(pid, s[0], "quick", s[1]) if isinstance(s, list) else (pid, s, "quick", i) for i, s in enumerate(seeds)]
     if workers <= 0:
         out = [engine._work(t).get("digest") for t in tasks]
     else:
@@ -57,7 +57,8 @@ def determinism(argv):
         b = _digests_sub(pid, seeds, 12345, 0)       # other hash seed, fresh interpreter
         c = _digests_sub(pid, seeds, 777, 4)         # pool, 4 workers
         d = _digests_sub(pid, seeds, 0, 16)          # pool, 16 workers
-        e = _digests_sub(pid, seeds + seeds, 1, 1)   # each seed twice in the same interpreter (pool of 1)
+        pairs = [[s, i] for i, s in enumerate(seeds)]
+        e = _digests_sub(pid, pairs + pairs, 1, 1)   # each (seed, index) twice in the same interpreter (pool of 1)
         ok = a == b == c == d and e[:n] == a and e[n:] == a and None not in a
         report[pid] = {"seeds": n, "identical": ok}
         print(f"determinism {pid}: {n} seeds x (twice in-process, hash seeds 0/12345/777/1, workers 0/1/4/16): {'IDENTICAL' if ok else 'MISMATCH'}", flush=True)
